@@ -147,10 +147,15 @@ def _supplied_note(c, source):
         Project().attach_pattern(other)
     n = other.data[0][0]
     n.note, n.vel, n.module, n.ctl, n.val = NOTECMD(c[0]), c[1], c[2], c[3], c[4]
+    if source.startswith("live"):
+        # the note itself, still sitting in the other pattern (the callable "copies" cells over without cloning)
+        _KEEP.append(other)
+        return n
     return n.clone() if source.startswith("clone") else copy.deepcopy(n)
 
 
-NOTE_SOURCES = ["fresh", "fresh", "clone_of_foreign", "clone_of_foreign_attached", "deepcopy_of_foreign", "deepcopy_of_foreign_attached", "shared"]
+NOTE_SOURCES = ["fresh", "fresh", "clone_of_foreign", "clone_of_foreign_attached", "deepcopy_of_foreign", "deepcopy_of_foreign_attached", "shared", "live_foreign", "live_foreign_attached"]
+_KEEP = []
 _SHARED = {}
 _SUPPLIED = []
 
@@ -179,6 +184,7 @@ def cells_of(pattern):
 def apply_edit(pattern, edit, fail_at, before=None):
     _SHARED.clear()
     del _SUPPLIED[:]
+    del _KEEP[:]
     out = _apply_edit(pattern, edit, fail_at, before)
     # reached only when the edit completed
     check_supplied_belong(pattern, "after %s" % edit["kind"])
